@@ -115,6 +115,24 @@ def enumerate_faults(feat, text, lm, rng):
                 gap = rng.choice([[u"      # a comment inside the table"], [u""], [u"  # c", u""]])
                 ftext = join(lines[:k + 1] + gap + [u"      | a | b | c | d | e |"] + lines[k + 1:])
                 yield ("cat:table-wrong-cell-count-after-gap", k + 2 + len(gap), ftext, k + 2 + len(gap))
+    # Examples outside an outline, directly below the tag line(s) of the next statement
+    ents = sorted((v, k) for k, v in lm.items() if "#" not in k and ".E" not in k)
+    for hid in header_ids:
+        at = lm[hid]
+        if at < 2 or not lines[at - 2].strip().startswith("@"):
+            continue
+        prev = [k for v, k in ents if v < at]
+        if prev and prev[-1].split(".")[-1].startswith("O"):
+            continue
+        yield ("cat:examples-outside-outline-after-tags", at, insert(at, u"    Examples: stray"), at)
+    # after a tag line only a taggable statement may follow: anything else is a violation at that line
+    for hid in header_ids:
+        at = lm[hid]
+        if at < 2 or not lines[at - 2].strip().startswith("@"):
+            continue
+        for nm, new in (("feature", u"Feature: second"), ("text", u"  free text here"),
+                        ("background", u"  Background: late"), ("step", u"    Given a step")):
+            yield ("cat:%s-after-tags" % nm, at, insert(at, new), at)
     # malformed tag token
     for hid in header_ids:
         at = lm[hid]
